@@ -60,6 +60,9 @@ class Out:
         for s in o.samples:
             if len(self.samples) < 12:
                 self.samples.append(s)
+        for attr in ("fns", "models"):
+            if attr in o.__dict__:
+                self.__dict__.setdefault(attr, set()).update(o.__dict__[attr])
 
 
 class DepthCtx(Ctx):
